@@ -295,6 +295,8 @@ struct Driver<'a, RK: RadioKind, C: Probe> {
     /// what the chip's sync word registers held right after the last successful
     /// set_lora_sync_word (None: never set, or the last attempt failed)
     sync_expected: Option<u16>,
+    /// the word set_lora_sync_word is called with in this plan
+    sync_word: u16,
 }
 
 impl<'a, RK: RadioKind, C: Probe> Driver<'a, RK, C> {
@@ -309,6 +311,7 @@ impl<'a, RK: RadioKind, C: Probe> Driver<'a, RK, C> {
         let tx_pkt = &mut self.tx_pkt;
         let rx_pkt = &self.rx_pkt;
         let rxbuf = &mut self.rxbuf;
+        let sync_word = self.sync_word;
         let r: Result<Result<Option<Result<(), RadioError>>, u64>, Trapped> = trap(|| {
             let full = |x: Result<(Result<(), RadioError>, u64), u64>| x.map(|(r, _)| Some(r));
             match call {
@@ -328,7 +331,8 @@ impl<'a, RK: RadioKind, C: Probe> Driver<'a, RK, C> {
                 Call::PrepCad => full(exec::run(lora.prepare_for_cad(mdl), budget)),
                 Call::Cad => full(exec::run(async { lora.cad(mdl).await.map(|_| ()) }, budget)),
                 // (the rig constructs the driver with the public sync word 0x3444: a value other than that, so that a stale copy shows)
-                Call::SetSync => full(exec::run(lora.set_lora_sync_word(0x1424), budget)),
+                // every other plan: a word outside the 0xX4Y4 form the LoRaWAN words have
+                Call::SetSync => full(exec::run(lora.set_lora_sync_word(sync_word), budget)),
                 Call::GetRssi => full(exec::run(async { lora.get_rssi().await.map(|_| ()) }, budget)),
                 Call::WaitIrq => full(exec::run(lora.wait_for_irq(), budget)),
                 Call::WaitIrqCut(k) => Ok(exec::run_cut(lora.wait_for_irq(), k as u64)),
@@ -695,7 +699,7 @@ impl<'a> Visitor for RunPlan<'a> {
             sh.arm(plan.fault);
         }
         let losses_base = bus.borrow().chip.losses();
-        let mut d = Driver { var, lora, bus: bus.clone(), mdl, tx_pkt, rx_pkt, rxbuf: [0; 255], col, found: vec![], log: vec![], losses_base, failed_init: false, baseline_failed: plan.baseline_failed.clone(), failed: vec![], sync_expected: None };
+        let mut d = Driver { var, lora, bus: bus.clone(), mdl, tx_pkt, rx_pkt, rxbuf: [0; 255], col, found: vec![], log: vec![], losses_base, failed_init: false, baseline_failed: plan.baseline_failed.clone(), failed: vec![], sync_expected: None, sync_word: if plan.ovar % 2 == 0 { 0x1424 } else { 0x1F38 } };
         let plan_json = || {
             json!({
                 "chip": plan.var.name(),
